@@ -235,11 +235,15 @@ class World(object):
         kw = {}
         if optional:
             kw["optional"] = optional
+        if s.get("cluster"):
+            kw["cluster"] = True        # the component belongs to the cluster group, not to the default (single) group
         creq, copt = s.get("cls_req", 0), s.get("cls_opt", 0)
         if kind in ("plain", "plugin") and (creq or copt):
             base = vplain if kind == "plain" else s.get("ptype", plugins.component)
             ctype = type("T%d_%s" % (cid, tag), (base,), {"requires": items[:creq], "optional": optional[:copt]})
             kw2 = {"optional": optional[copt:]} if optional[copt:] else {}
+            if s.get("cluster"):
+                kw2["cluster"] = True
             deco = ctype(*items[creq:], **kw2)
         elif kind == "plain":
             deco = vplain(*items, **kw)
@@ -268,6 +272,18 @@ class World(object):
                         sorted(self.ids.get(d, -1) for d in dr.get_delegate(c).dependencies),
                         sorted(self.ids.get(d, -1) for d in grp.get(c, ())))
         return out
+
+    def edges_inconsistent(self):
+        """the three places that hold a component's edges must agree with each other and contain what was declared"""
+        for cid, (a, b, c) in sorted(self.edge_snapshot().items()):
+            if not (a == b == c):
+                return ("the registries disagree about the dependencies of component %d: DEPENDENCIES %s, its delegate %s, "
+                        "the group registry %s (graphs built from one or the other are ordered differently)" % (cid, a, b, c))
+            sc = self.spec[cid]
+            declared = set(x for it in sc["items"] for x in ([it[1]] if it[0] == "o" else it[1])) | set(sc["optional"])
+            if not declared <= set(a):
+                return "component %d was declared with dependencies %s, the registries hold %s" % (cid, sorted(declared), a)
+        return None
 
     def edges_changed(self, before):
         after = self.edge_snapshot()
@@ -514,7 +530,11 @@ def gen_spec(rng, n, fault_rate=0.25, with_points=True, with_ignore=False, seede
             first = rng.choice(multi_ds) if (multi_ds and rng.random() < 0.6) else (rng.choice(ds) if ds else rng.choice(lower))
             if rng.random() < 0.97:
                 s["items"] = [("o", first)] + s["items"]
-            s["elems"] = [rng.choice(["v", "v", "v", "n", "f:" + rng.choice(EXCS)]) for _ in range(rng.randint(0, 4))]
+            # outcome per element of a multi-output value: mostly values, some None, and faults of every kind (more of them
+            # when the world is generated with dense fault injection)
+            pf = max(0.2, min(0.5, fault_rate))
+            s["elems"] = [("f:" + rng.choice(EXCS)) if rng.random() < pf else rng.choice(["v", "v", "v", "n"])
+                          for _ in range(rng.randint(0, 4))]
         # body
         ndeps = sum(1 if it[0] == "o" else len(it[1]) for it in s["items"]) + len(s["optional"])
         r = rng.random()
@@ -605,7 +625,7 @@ def evaluate(world, seeds, store_skips, graph, order=None, mode="components", ob
             dr.run_components(order, g, b)
     except Exception as ex:   # C03: nothing may escape
         r.error = ex
-    r.edges_changed = world.edges_changed(edges)
+    r.edges_changed = world.edges_changed(edges) or world.edges_inconsistent()
     r.broker, r.graph, r.order = b, g, order
     r.order_ids = [world.ids[c] for c in order if c in world.ids]
     r.calls = list(world.calls)
@@ -697,6 +717,8 @@ def rebuild(case):
     graph = world.graph_for(case["targets"])
     if case.get("dropped") is not None and not case.get("_keep_dropped"):
         graph.pop(world.comps[case["dropped"]], None)
+    if case.get("group_graph"):
+        graph = world.group_graph(list(graph))
     if case.get("mode") == "loaded-archive-history":
         # the recorded history: first the evaluation of a loaded archive, then the recorded evaluation on the graph as
         # the registry gives it afterwards
